@@ -666,6 +666,13 @@ theorem phylipRead_good (sequential : Bool) (cfg : Cfg) (hv : cfg.valid) (lines 
     (fun st l h => phylipStep_inv sequential cfg hv st l h) (fun st h => phylipFinish_good sequential cfg st h) lines {}
     (by unfold PhyInv; trivial))
 
+/-- the same for an autodetected name width -/
+theorem phylipReadW_good (namewidth : Nat) (sequential : Bool) (cfg : Cfg) (hv : cfg.valid) (lines : List Bytes) :
+    Good (phylipReadW namewidth sequential cfg lines).1 :=
+  phyUnput_good _ (runLines_inv (phylipStep sequential cfg) (phylipFinish sequential cfg) (PhyInv sequential cfg) GoodP
+    (fun st l h => phylipStep_inv sequential cfg hv st l h) (fun st h => phylipFinish_good sequential cfg st h) lines _
+    (by unfold PhyInv; trivial))
+
 /-! ## what is left for the next read
 
 A step that stops with eslOK hands back exactly the line it was given (`esl_msafile_PutLine`), the end of input hands
